@@ -121,6 +121,12 @@ func (o *frameOracle) Leg(c *explore.Ctx, leg *world.Leg) {
 			c.Report(p, "frame", leg.Func+":foreign-key", fmt.Sprintf("%s changed key %q of %s, outside the entries of the tokens named in its input", leg.Func, k.Key, uni.Name(k.Addr)))
 			continue
 		}
+		// the entry of a fresh nonce does not exist before the creation: an existing entry under that
+		// key belongs to another (token, nonce) pair whose key has the same bytes
+		if leg.Func == vmcommon.BuiltInFunctionESDTNFTCreate && strings.HasPrefix(k.Key, spec.TokPrefix) && len(k.Pre) > 0 {
+			c.Report(p, "frame", leg.Func+":existing-entry-overwritten", fmt.Sprintf("ESDTNFTCreate of %q wrote over the existing entry %q of %s (the entry of another token whose key has the same bytes)", leg.Input.Arguments[0], k.Key, uni.Name(k.Addr)))
+			continue
+		}
 		c.Class("key-change-in-footprint:" + leg.Func)
 	}
 	for _, f := range fields {
